@@ -58,8 +58,11 @@ fn draw_fault_call(rng: &mut Rng, tier: Tier) -> Call {
             Call::DirRead { entries: draw_entries(rng, n, false), ic: 1 + rng.below(4) as u8 }
         }
         16 | 17 => {
-            let n = *rng.pick(&[0usize, 1, 3, 40, 400, 4200, 9000]);
-            Call::DirWrite { entries: draw_entries(rng, n, false), ic: 1 + rng.below(4) as u8 }
+            // (beyond 2^16 entries: not through brotli, whose best-quality encoder is too slow
+            // for hundreds of fault points on a directory of that size)
+            let n = *rng.pick(&[0usize, 1, 3, 40, 400, 4200, 9000, 65_537]);
+            let ic = 1 + rng.below(4) as u8;
+            Call::DirWrite { entries: draw_entries(rng, n, false), ic: if n > 60_000 && ic == 3 { 4 } else { ic } }
         }
         18 => Call::ReadDirs { src: ImageSrc::Foreign(draw_foreign(rng, false)), range: RangeSpec::ALL },
         _ => {
